@@ -97,6 +97,7 @@ def _minimise(s, obj):
         return None
     v = _val(s.model().eval(obj, model_completion=True))
     o = z3.Optimize()
+    o.set("timeout", 2000)           # Optimize is only a shortcut: the descent loop below certifies the optimum either way
     o.add(*s.assertions())
     h = o.minimize(obj)
     if o.check() == z3.sat:
